@@ -21,6 +21,12 @@ class C04Quotient(QuotientWorld):
         sig = self.full_sig()
         sig["op"] = step["op"]
         probes = sorted(set(self.cfg["uni"]) | self.model)
+        if self.cfg.get("big9"):
+            # 512 slots in one cluster make every look-up O(table): probe a deterministic sample; get_hashes() below
+            # still compares the complete content
+            from ..core import mix
+            sel = mix(len(self.model), str(step.get("i", 0)), step["op"])
+            probes = [h for j, h in enumerate(probes) if (j * 2654435761 + sel) % 13 == 0]
         for h in probes:
             st, v = self.call(lambda: f.check_alt(h), f"check_alt({h:#x})", sig)
             if st == "exc":
@@ -36,6 +42,8 @@ class C04Quotient(QuotientWorld):
                 st, v = self.call(lambda: f.check(key), f"check(key {i})", sig)
                 if st == "exc" or bool(v) != (h in self.model):
                     raise Violation("keyed_check_wrong", f"check(key {i}) -> {v!r}, model {h in self.model}", sig)
+        if self.cfg.get("big9") and step["op"] == "bulk" and len(self.model) < f.size:
+            return  # still filling the 512-slot table
         if self.cfg.get("big") and (f.quotient > 17 or step["op"] not in ("resize", "final")):
             # wide table: the full scan is made after resizes and at the end of the history only
             if f.elements_added != len(self.model):
